@@ -31,21 +31,9 @@ def main():
             s = vf.run([abidiff, "--no-default-suppression", "--stat"] + o + [a, b], env=env)
             rep = report.parse(r.out)
             # hook H3: the diff forest behind this report, for DiffTreeTrace (same options + --dump-diff-tree)
-            t = vf.run([abidiff, "--no-default-suppression", "--dump-diff-tree"] + o + [a, b], env=env)
-            pt = difftree.parse(t.err)
-            if pt is not None and t.out == r.out:
-                nodes, unknown = pt
-                S = rep["summary"]
-                g = lambda part, k: S.get(part, {}).get(k, 0)
-                if unknown or len(nodes) > 60:
-                    trees.append(("discard", "unknown-category-name" if unknown else "tree-too-large"))
-                else:
-                    trees.append(("ok", {"e": "Tree", "case": idx, "opts": " ".join(o), "nodes": nodes, "showRed": "--redundant" in o, "allowHarmless": "--harmless" in o,
-                                         "allowHarmful": "--no-harmful" not in o, "sumChangedFns": g("fns", "changed"), "sumFilteredFns": g("fns", "changed_f"),
-                                         "sumChangedVars": g("vars", "changed"), "sumFilteredVars": g("vars", "changed_f"),
-                                         "netRemoved": g("fns", "removed") + g("vars", "removed") + g("fsyms", "removed") + g("vsyms", "removed"),
-                                         "netAdded": g("fns", "added") + g("vars", "added") + g("fsyms", "added") + g("vsyms", "added"),
-                                         "sonameOrArch": rep["soname"] or rep["arch"], "exit": r.exit, "ret": campaign.retof(t)}))
+            te = difftree.tree_event(abidiff, a, b, o, env, idx, base=r)
+            if te is not None:
+                trees.append(te)
             evs.append({"e": "Summary", "case": idx, "opts": " ".join(o), "summary": rep["summary"], "entries": rep["entries"], "sections": rep["sections"],
                         "statSame": summary_lines(r.out) == summary_lines(s.out), "exit": r.exit, "statExit": s.exit, "ret": campaign.retof(r, s),
                         "out": r.out[:500]})
